@@ -77,7 +77,7 @@ def _mutate(draw, m, depth):
         return out
     ops = ["retype", "wrap", "none"]
     if isinstance(m, dict):
-        ops += ["drop", "rename", "add", "to_pairs", "to_list_of_values"] * 2
+        ops += ["drop", "rename", "add", "to_pairs", "to_list_of_values", "rekey"] * 2
     if isinstance(m, list):
         ops += ["remove", "append", "dup", "to_dict", "to_tuple", "unwrap"] * 2
     if isinstance(m, str):
@@ -97,6 +97,10 @@ def _mutate(draw, m, depth):
         return {(f"{a}_x" if a == k and isinstance(a, str) else a): b for a, b in m.items()}
     if op == "add":
         return {**m, "extra": 1}
+    if op == "rekey" and m:
+        # keys of another type (a mapping literal, not a JSON object, once it is rendered as text)
+        mk = draw(st.sampled_from([lambda i, a: i, lambda i, a: (i, i), lambda i, a: None if i == 0 else i, lambda i, a: i + 0.5, lambda i, a: bool(i % 2) if i < 2 else i]))
+        return {mk(i, a): b for i, (a, b) in enumerate(m.items())}
     if op == "to_pairs":
         return [[a, b] for a, b in m.items()]
     if op == "to_list_of_values":
